@@ -67,7 +67,9 @@ EVALUABLE = Frag()
 # standard environment pieces (aggregates / objects) matching the generator
 AGG_TUPLE = ["Tuple", [3, -1, 4, 1]]
 AGG_DICT = ["Dict", [[["Tuple", [i, j]], 10 * i + j] for i in range(3) for j in range(3)]]
-AGG_OBJ = ["Obj", {"a": 5, "b": -2, "inner": ["Obj", {"c": 9}]}]
+AGG_OBJ = ["Obj", {"a": 5, "b": -2, "inner": ["Obj", {"c": 9}],
+                   # names with a trailing underscore next to the plain ones (sklearn style)
+                   "b_": 17, "a_": -11, "n_it_": 4, "n_it": 40}]
 # never bound in any environment; some are spelled like Python builtins, which an
 # evaluator must not fall back to
 UNBOUND_NAMES = ("unbound_u", "unbound_u", "abs", "len", "sum", "id", "pow", "hash", "max")
